@@ -22,7 +22,7 @@ def pmeta(d):
 
 
 def file_case(fa, cid, raw, records, codec="null", interval=16000, level=None, meta=None, sync=b"", parsed_form=False,
-              kind_out="bytesio", kind_in="bytesio", tmpdir=None):
+              kind_out="bytesio", kind_in="bytesio", tmpdir=None, append_at=None, codec2="null"):
     case = {"id": cid, "op": "file_rt", "schema": proj.pj(raw), "records": [proj.pv(r) for r in records], "codec": proj.cps(codec),
             "interval": interval, "level": -1 if level is None else level,
             "meta": pmeta({k: v for k, v in (meta or {}).items() if not k.startswith("avro.")}), "sync": list(sync),
@@ -44,6 +44,23 @@ def file_case(fa, cid, raw, records, codec="null", interval=16000, level=None, m
             fa.writer(fo, schema, records, **kw)
             data = fo.getdata()
             case["calls_out"] = sorted(set(fo.log))
+        elif append_at is not None:
+            # the file is written by one writer() call and extended by a second one (append mode: the stream is positioned at its end);
+            # the second call names another codec, the header's one governs
+            case["append_at"] = append_at
+            if kind_out == "file":
+                path = os.path.join(tmpdir, cid + ".avro")
+                with open(path, "wb") as fo:
+                    fa.writer(fo, schema, records[:append_at], **kw)
+                with open(path, "a+b") as fo:
+                    fa.writer(fo, schema, records[append_at:], codec=codec2, sync_interval=max(1, interval // 2))
+                with open(path, "rb") as f:
+                    data = f.read()
+            else:
+                fo = io.BytesIO()
+                fa.writer(fo, schema, records[:append_at], **kw)
+                fa.writer(fo, schema, records[append_at:], codec=codec2, sync_interval=max(1, interval // 2))
+                data = fo.getvalue()
         elif kind_out == "file":
             path = os.path.join(tmpdir, cid + ".avro")
             with open(path, "wb") as fo:
@@ -103,7 +120,7 @@ def make_cases(ctx, fa, n, label="f"):
     codecs = available_codecs(fa)
     ctx.extra["codecs"] = codecs
     cases = []
-    tmp = tempfile.mkdtemp(prefix="verif_c04_", dir=os.path.join(core.VERIF, ".work"))
+    tmp = tempfile.mkdtemp(prefix="verif_c04_", dir=core.tlc.WORK)
     tries = 0
     shared_meta = {"shared": "metadata dict reused by several writer() calls"}
     while len(cases) < n and tries < n * 5:
@@ -135,8 +152,12 @@ def make_cases(ctx, fa, n, label="f"):
         sync = rnd.choice([b"", bytes(rnd.getrandbits(8) for _ in range(16)), bytes(range(16)), b"\x00" * 16])
         kind_out = rnd.choice(["bytesio", "bytesio", "pipe", "file"])
         kind_in = rnd.choice(["bytesio", "seq", "seq", "file"]) if kind_out == "file" else rnd.choice(["bytesio", "seq"])
+        append_at = None
+        if kind_out in ("bytesio", "file") and nrec >= 1 and rnd.random() < 0.2:
+            append_at = rnd.randint(0, nrec)
         c = file_case(fa, "%s%d" % (label, len(cases)), raw, records, codec=codec, interval=interval, level=level, meta=meta, sync=sync,
-                      parsed_form=rnd.random() < 0.4, kind_out=kind_out, kind_in=kind_in, tmpdir=tmp)
+                      parsed_form=rnd.random() < 0.4, kind_out=kind_out, kind_in=kind_in, tmpdir=tmp, append_at=append_at,
+                      codec2=rnd.choice(codecs))
         c["nrec"] = nrec
         cases.append(c)
     try:
@@ -160,11 +181,13 @@ def run(ctx, fa, own):
     cases = make_cases(ctx, fa, n)
     ctx.rule = ("seeded product: schema of every top-level kind x record lists (0..70 records, zero-byte records) x codec in the importable "
                 "{null, deflate, bzip2, xz} x sync_interval {1 .. total+1} x compression level x metadata x sync marker x raw/parsed schema x "
-                "stream kind (BytesIO, real file, read-only sequential input, write-only non-seekable output); non-trivial = >= 1 block and "
+                "stream kind (BytesIO, real file, read-only sequential input, write-only non-seekable output) x written in one call or extended by a second "
+                "writer() call in append mode under another codec argument; non-trivial = >= 1 block and "
                 ">= 1 record; distinct by SHA-256 of the case")
     core.judge_cases(ctx, cases, "files", own, nontrivial_fn=nontrivial, describe=describe)
     ctx.extra["files_with_2plus_blocks"] = sum(1 for c in cases if len(c.get("walk", [])) >= 2)
     ctx.extra["files_by_codec"] = {k: sum(1 for c in cases if proj.uncps(c["codec"]) == k) for k in ctx.extra["codecs"]}
+    ctx.extra["files_extended_in_append_mode"] = sum(1 for c in cases if "append_at" in c)
     ctx.extra["pipe_outputs"] = sum(1 for c in cases if c["kind_out"] == "pipe")
     ctx.extra["seq_inputs"] = sum(1 for c in cases if c["kind_in"] == "seq")
     for c in cases[:3]:
